@@ -1,1 +1,63 @@
-/-! C15 — property theorems (placeholder until the model exists). -/
+import EupsModel.Lemmas.Cache
+/-! C15 — dry-run (-n) commands change nothing.  Property theorems only.
+
+The model threads `noaction` through `Model/Db.lean` exactly where `Eups.py` tests it: in `declare` around
+the version record (l.2651) and around the tag move (l.2686), in `unassignTag` before the database update
+(l.2235), in `undeclare` before `Database.undeclare` (l.2816), in `remove` around `rmtree` (l.3291).  The
+theorem is therefore a statement about that guard structure; the tie to the code is the correspondence of
+`harness/c15.py` (byte hash of the stacks around every dry run + the static guard map of the four methods). -/
+namespace EupsModel.C15
+open EupsModel.Db EupsModel.Cache
+
+/-- A dry run emits no effect at all, whatever the state of the database, of the in-memory stacks and of the
+directories, and whatever the arguments: `declare` (new declaration, redeclaration, conflicting redeclaration,
+tag move, tag only, `tablefile="none"`, forced, with external files), `undeclare` (with or without version, tag only,
+version-and-tag), `unassignTag`, `remove`. -/
+theorem C15_noaction_emits_nothing (nst : Nat) (c : Cmd) (h : c.noaction = true) (p : Proc) :
+    (run nst c p).2 = p := run_noaction nst c h p
+
+/-- For every state of the world and every listed command run with `noaction` by any user (killed anywhere
+or not): the database a fresh reader sees, the modification time of every record (no version or chain file is
+rewritten), the installation directories and the files of the extra directories (`-L`) are exactly what they
+were.  Only cache files may differ: loading
+the stacks may have rebuilt a stale cache, which the property excludes. -/
+theorem C15_noaction_is_identity (w : World) (u : User) (c : Cmd) (crash : Option Nat) (h : c.noaction = true) :
+    (step w (.run u c crash)).db = w.db ∧ (step w (.run u c crash)).dirs = w.dirs ∧
+      (step w (.run u c crash)).touch = w.touch ∧ (step w (.run u c crash)).extras = w.extras :=
+  step_of_empty_trace true w u c crash (fun p hp => by rw [run_noaction w.nst c h p]; exact hp)
+
+/-! ### non-vacuity: the same commands without `noaction` do change the database -/
+
+/-- `declare p 1 <dir>` on the empty database: the dry run leaves it empty, the real run declares and tags -/
+example :
+    let p : Name := [112]; let L : Flav := [76]
+    let dirs : List DirEnt := [⟨⟨0, relDir L p [49]⟩, p⟩]
+    let dry := step (World.init 2 dirs)
+      (.run 0 (.declare ⟨L, p, [49], some ⟨0, relDir L p [49]⟩, none, .dflt, none, false, true, []⟩) none)
+    let real := step (World.init 2 dirs)
+      (.run 0 (.declare ⟨L, p, [49], some ⟨0, relDir L p [49]⟩, none, .dflt, none, false, false, []⟩) none)
+    (dry.db.decls.length, dry.db.tags.length, real.db.decls.length, real.db.tags.length) = (0, 0, 1, 1) := by
+  decide
+
+/-- `remove p 1`: the dry run keeps declaration and directory, the real run removes both -/
+example :
+    let p : Name := [112]; let L : Flav := [76]
+    let dirs : List DirEnt := [⟨⟨0, relDir L p [49]⟩, p⟩]
+    let w := step (World.init 2 dirs)
+      (.run 0 (.declare ⟨L, p, [49], some ⟨0, relDir L p [49]⟩, none, .dflt, none, false, false, []⟩) none)
+    let dry := step w (.run 0 (.remove L p [49] false true false none) none)
+    let real := step w (.run 0 (.remove L p [49] false false false none) none)
+    (dry.db.decls.length, dry.dirs.length, real.db.decls.length, real.dirs.length) = (1, 1, 0, 0) := by
+  decide
+
+/-- `declare p 1 <dir> -L doc/a.txt`: the dry run copies nothing, the real run saves the file -/
+example :
+    let p : Name := [112]; let L : Flav := [76]
+    let dirs : List DirEnt := [⟨⟨0, relDir L p [49]⟩, p⟩]
+    let dry := step (World.init 2 dirs)
+      (.run 0 (.declare ⟨L, p, [49], some ⟨0, relDir L p [49]⟩, none, .dflt, none, false, true, [([100], 1)]⟩) none)
+    let real := step (World.init 2 dirs)
+      (.run 0 (.declare ⟨L, p, [49], some ⟨0, relDir L p [49]⟩, none, .dflt, none, false, false, [([100], 1)]⟩) none)
+    (dry.extras.length, real.extras.length) = (0, 1) := by decide
+
+end EupsModel.C15
